@@ -183,6 +183,37 @@ def pair(ctx, rid="C18.pair"):
                     detail = "the promise is taken out of %s before set_value" % pm
             ctx.ob(rid, n_ok, f.loc(sv), "the satisfied promise is moved to %s and removed from %s on every path" % (used, pm),
                    detail, fn=f.label, inst=f.qname)
+            # nothing that can throw a payload exception sits between set_value and the hand-over to the used map: a throw
+            # there leaves a SATISFIED promise in the pending map (isCompleted() false for a ready future, the next
+            # setDelayedValue / fulfillAllPromises of that key raises promise_already_satisfied)
+            removals = []
+            for st in f.stmts.values():
+                if st["k"] == "CXXOperatorCallExpr" and st.get("op") == "=" and len(st["args"]) == 2 and f.pos_of(st):
+                    lhs = unwrap(f, f.s(st["args"][0]))
+                    if lhs is not None and lhs["k"] == "CXXOperatorCallExpr" and lhs.get("op") == "[]" and \
+                            path(f, f.s(lhs["args"][0])) == "this." + used and path(f, f.s(st["args"][1])) == tgt:
+                        removals.append(tuple(f.pos_of(st)))
+            between = None
+            for st in f.stmts.values():
+                if st["k"] not in CALLS and st["k"] not in CTORS:
+                    continue
+                c = st.get("callee") or {}
+                if st["id"] == sv["id"] or c.get("noexcept") or c.get("fq") in ("std::move", "std::forward"):
+                    continue
+                if not (c.get("qname", "").startswith("vdrv::") or any("vdrv::" in p_ for p_ in c.get("params", []))):
+                    continue
+                if st["k"] in CTORS and c.get("params") and c["params"][0].rstrip().endswith("&&"):
+                    continue
+                pos = f.pos_of(st)
+                if pos is None or any(d["id"] == st["id"] for d in f.descendants(sv)):
+                    continue
+                if f.reach_avoiding(sp, tuple(pos), removals) and any(f.reach_avoiding(tuple(pos), r, []) for r in removals) and \
+                        not f.reach_avoiding(tuple(pos), sp, []):
+                    between = st
+            ctx.ob(rid, between is None, f.loc(between) if between else f.loc(sv), "no payload operation that can throw runs between "
+                   "set_value and the move of the promise to %s" % used, "" if between is None else
+                   "%s may throw after the promise has been satisfied and before it leaves %s: the key stays 'pending' with a "
+                   "ready future" % ((between.get("callee") or {}).get("qname", "?")[:70], pm), fn=f.label, inst=f.qname)
         # unknown / completed key: find == end -> no mutation
         for p in ps:
             ev = [(kind, tuple(pos), val) for kind, pos, val in path_positions(f, p)]
